@@ -11,7 +11,8 @@ Emits data only (DESIGN §2.4): small inductive types (the schema, constant text
                    `execute.pytask_execute_task_setup` over `node_and_neighbors` as a list of loop steps (break / continue /
                    raise / needs := True under a condition);
 * `neighbourOrder`, `hasChangedCases`, `updateStatesSkipsDryRun`, `descendingTasksShape`;
-* `executeSteps` (position of the dry-run guard in `pytask_execute_task`), `teardownChecks`, `buildLoop`
+* `executeSteps` (position of the dry-run guard in `pytask_execute_task`), `executeWrappers` / `executeGuards` (the other
+  implementations of that hook), `teardownChecks`, `buildLoopOps`
   (shape of `pytask_execute_build`), `protocolPhases`, `protocolHandlers`, `reportFromTask/-Exception`, `excSubclass`,
   `excIsException`.
 
@@ -1470,6 +1471,50 @@ def _execute_steps():
     return steps
 
 
+def _execute_chain():
+    """The other implementations of `pytask_execute_task`: wrappers (they do not change the result) and, for every plain
+    implementation outside execute.py, the condition under which it does anything at all
+    (`if is_task_generator(task): …; return True` followed by `return None`)."""
+    X = _host()
+    wrappers, guards = [], []
+    for p in sorted(X.SRC.glob("*.py")):
+        if p.name == "hookspecs.py":
+            continue
+        mod = X._parse(p.name)
+        for n in ast.walk(mod):
+            if isinstance(n, ast.FunctionDef) and n.name == "pytask_execute_task":
+                decos = " ".join(_u(d) for d in n.decorator_list)
+                if "wrapper=True" in decos or "hookwrapper=True" in decos:
+                    if "wrap:" + p.stem not in wrappers:
+                        wrappers.append("wrap:" + p.stem)
+    for m in _all_impl_modules("pytask_execute_task"):
+        if m == "execute":
+            continue
+        fn = _top_func(m + ".py", "pytask_execute_task")
+        env = Env(fn, m + ".py")
+        if env.task is None:
+            raise _err(f"{env.where()}: no `task` parameter")
+        cond = None
+        b = _body(fn)
+        for i, st in enumerate(b):
+            if isinstance(st, ast.If) and not _inert(st):
+                if cond is not None or st.orelse:
+                    raise _err(f"{env.where()}: more than one effective branch")
+                cond = _cond(st.test, env)
+                continue
+            if isinstance(st, ast.Return):
+                if i != len(b) - 1 or _ret(st, env.where()) != ("retNone",):
+                    raise _err(f"{env.where()}: the fall-through does not `return None`")
+                continue
+            if _inert(st):
+                continue
+            raise _err(f"{env.where()}: unrecognised statement {_u(st).splitlines()[0]!r}")
+        if cond is None:
+            raise _err(f"{env.where()}: no guarded branch found")
+        guards.append((m, cond))
+    return wrappers, guards
+
+
 def _teardown_checks():
     fn = _top_func("execute.py", "pytask_execute_task_teardown")
     env = Env(fn, "execute.py")
@@ -1575,7 +1620,8 @@ def _facts():
     pairs, is_exc = _exc_hierarchy()
     xsteps = _execute_steps()
     tchecks = _teardown_checks()
-    return dict(setups=setups, reports=reports, order=order, cases=cases, dry=dry, loop=loop, phases=phases,
+    wrappers, xguards = _execute_chain()
+    return dict(wrappers=wrappers, xguards=xguards, setups=setups, reports=reports, order=order, cases=cases, dry=dry, loop=loop, phases=phases,
                 handlers=handlers, from_task=from_task, from_exc=from_exc, pairs=pairs, is_exc=is_exc, xsteps=xsteps,
                 tchecks=tchecks)
 
@@ -1612,6 +1658,10 @@ def engine_section() -> list[str]:
         f"⟨{strs(n)}, {X.lean_bool(s)}, {X.lean_bool(fe)}⟩" for n, s, fe in f["handlers"]) + "]")
     L.append("/-- `execute.pytask_execute_task`: its steps in source order. -/")
     L.append(f"def executeSteps : List XStep := {_lean(f['xsteps'])}")
+    L.append("/-- other `pytask_execute_task` implementations: hook wrappers, and per plain implementation the condition under which it acts. -/")
+    L.append(f"def executeWrappers : List String := {strs(f['wrappers'])}")
+    L.append("def executeGuards : List (String × Cond) := [" + ", ".join(
+        f"({X.lean_str(n)}, {_lean(c)})" for n, c in f["xguards"]) + "]")
     L.append("/-- `execute.pytask_execute_task_teardown`: its checks in source order. -/")
     L.append(f"def teardownChecks : List TCheck := {_lean(f['tchecks'])}")
     L.append("/-- `pytask_execute_build`: the statements of its loop in source order. -/")
